@@ -41,7 +41,10 @@ def plan(tier, seed):
 
 
 def shard(ctx):
-    prof = StreamProfile(knobs_fn=knobs, script_len=ctx.params["script_len"])
+    from ..templates import any_template
+
+    prof = StreamProfile(knobs_fn=knobs, script_len=ctx.params["script_len"], templates=any_template)
+    prof.template_prob = 0.4
     run_stream(ctx, prof, [PurityMonitor(ctx, fault_every=ctx.params["fault_every"], fault_points=ctx.params["fault_points"])])
 
 
